@@ -65,7 +65,7 @@ def mc_dbg(ck, maxscript, progsel, dump=True):
     work = tmpdir("dbg_mc")
     cases = os.path.join(work, "cases.json")
     cfg = write_cfg("gen/MC_HyDebugger.cfg",
-                    "SPECIFICATION Spec\nCONSTANTS\n  B = 256\n  RunBound = 60\n  MaxScript = %d\n  DumpOn = %s\n  ProgSel = %s\n"
+                    "SPECIFICATION Spec\nCONSTANTS\n  B = 256\n  RunBound = 90\n  MaxScript = %d\n  DumpOn = %s\n  ProgSel = %s\n"
                     "INVARIANT Coherent\nINVARIANT NeverStuck\nINVARIANT Dump\nPROPERTY RunStopsAtFirstBreak\nPROPERTY ExactlyOnce\nCHECK_DEADLOCK FALSE\n"
                     % (maxscript, "TRUE" if dump else "FALSE", progsel))
     n = [0]
@@ -138,9 +138,12 @@ def check_c11(pid, tier, seed, replay):
         return ck.finish()
     quick = tier == "quick"
     rng = random.Random(seed)
-    cases, n = mc_dbg(ck, 3 if quick else 4, "{1, 2, 3, 4, 5, 6}")
+    cases, n = mc_dbg(ck, 3 if quick else 4, "{1, 2, 3, 4, 5, 6, 7, 8}")
     validate_sessions(ck, run_cli("dbg", cases, "R"), 14, describe_dbg, "R")
     ck.cov["exhaustive"] = True
+    # one command deeper on the two shortest looping programs (a back edge to the first command)
+    cases, n = mc_dbg(ck, 4 if quick else 5, "{7, 8}")
+    validate_sessions(ck, run_cli("dbg", cases, "R4"), 14, describe_dbg, "R4")
     if not quick:
         cases, n = mc_dbg(ck, 5, "{2, 3}")
         validate_sessions(ck, run_cli("dbg", cases, "R5"), 14, describe_dbg, "R5")
@@ -149,7 +152,7 @@ def check_c11(pid, tier, seed, replay):
         c = json.loads(f.readline())
         ck.sample({"program": M.prog_text(c["prog"]), "script": script_str(c["script"])})
     tc = []
-    fixed = [M.one_to_n(8), M.one_to_n(4), M.example_prog("hello_world"), M.example_prog("1_to_8")]
+    fixed = [M.one_to_n(8), M.one_to_n(16), M.example_prog("hello_world"), M.example_prog("1_to_8")]
     for i in range(120 if quick else 2500):
         p = rng.choice(fixed) if rng.random() < 0.25 else out_soup(rng, rng.randint(1, 14))
         tc.append({"prog": p, "script": rand_script(rng, len(p), rng.randint(5, 60) if rng.random() < 0.7 else rng.randint(60, 300))})
